@@ -18,6 +18,15 @@ CHECKS = {
             'Trusted: the reference key in the harness (written from the comments in object_comparisons.hpp), gcc ASan/UBSan. '
             'Timestamp-using comparators are judged only on all-set or all-unset timestamps, as the property states.',
             'DESIGN.md section 2 C16'),
+    'C13': ('exploration', 'exhaustive/strided enumeration with an exact decimal-arithmetic reference oracle (ASan/UBSan + -O2 builds)',
+            'parse(format(x)) == x for all 2^32 coordinates and timestamps (thorough; strided plus complete boundary blocks in quick); every '
+            'string over {0-9 . - + e E space x} up to length 5/7 and every exponent -99999..99999 through set_lon/set_lat and the partial '
+            'variants against exact decimal rounding (ties accept either neighbour); timestamp field sweeps and corruptions against a proleptic '
+            'Gregorian reference; integer attribute parsers at every type boundary. Inputs sit in exact-size heap blocks so ASan sees reads past the NUL.',
+            'Trusted: the digit-string arithmetic and calendar code in harness/c13_numbers.cpp. Must-accept class is conservative (documented digit '
+            'limits, no "+"); 2^32-1 for version/uid/changeset is not judged because the shipped unit tests pin it as rejected; 29 Feb in non-leap '
+            'years and instants outside the uint32 window are not judged.',
+            'DESIGN.md section 2 C13'),
 }
 
 NOT_YET = 'check not built yet (work in progress, see DESIGN.md section 6)'
